@@ -166,6 +166,23 @@ def _glue(idx, f0, f1, f2) -> bool:
         gotpair = (res.requirement_constraints_fulfilled, res.requirement_is_conditional)
         if gotpair != exp:
             return xs.fail(f"'{b.text}' under {states}: (fulfilled, is_conditional) = {gotpair}, compositional semantics gives {expect[1]} -> {exp}", **desc)
+        if b.rc:
+            # the same parsed tree object evaluated again under another assignment (callers keep trees): evaluation must not
+            # leave anything behind in the tree
+            from ahbicht.expressions.condition_expression_parser import parse_condition_expression_to_tree
+
+            kept = parse_condition_expression_to_tree(b.text)
+            first = detloop.run(requirement_constraint_evaluation(kept))
+            alpha2 = {k: env.STATES[(sel[i] + 1) % 3] for i, k in enumerate(b.rc)}
+            env.setup(rc=alpha2, fc=sigma, hints=hints, yc=yc)
+            try:
+                second = detloop.run(requirement_constraint_evaluation(kept))
+                pair2 = (second.requirement_constraints_fulfilled, second.requirement_is_conditional)
+            except Exception as e:  # pylint:disable=broad-except
+                pair2 = ("raised", type(e).__name__)
+            exp2 = refsem.outcome(refsem.req(tree, alpha2).value)
+            if (first.requirement_constraints_fulfilled, first.requirement_is_conditional) != exp or pair2 != exp2:
+                return xs.fail(f"'{b.text}': one parsed tree evaluated twice — under {states}: {(first.requirement_constraints_fulfilled, first.requirement_is_conditional)} (expected {exp}), then under { {k: v.name for k, v in alpha2.items()} }: {pair2} (expected {exp2})", **desc)
         return True
 
     if MODE == "C07":
